@@ -19,6 +19,7 @@ import (
 	"github.com/uber/kraken/core"
 	"github.com/uber/kraken/lib/torrent/networkevent"
 	"github.com/uber/kraken/lib/torrent/scheduler/announcequeue"
+	"github.com/uber/kraken/lib/torrent/scheduler/conn"
 	"github.com/uber/kraken/lib/torrent/scheduler/dispatch"
 	"github.com/uber/kraken/lib/torrent/storage"
 	"github.com/uber/kraken/tracker/announceclient"
@@ -237,3 +238,9 @@ func (v *VerifState) Close() {
 	}
 	v.s.eventLoop.stop()
 }
+
+// MoveToActive makes a pending slot active with a real (never started) conn, so that Saturated can become true.
+func (v *VerifState) MoveToActive(c *conn.Conn) error { return v.st.conns.MovePendingToActive(c) }
+
+// DeleteActive removes an active conn.
+func (v *VerifState) DeleteActive(c *conn.Conn) { v.st.conns.DeleteActive(c) }
